@@ -697,3 +697,191 @@ def sx_units_of_library(tree):
         return out
     except (KeyError, IndexError, TypeError):
         return None
+
+
+# ---- TYPE blocks (Model/DeclParser.v type_block) ----
+INT_TYPES_T = ["SINT", "INT", "DINT", "LINT", "USINT", "UINT", "UDINT", "ULINT"]
+
+
+class T_:
+    def __init__(self, rng):
+        self.rng = rng
+        self.d = D_(rng)
+
+    def si(self):
+        d = self.rng.choice(["0", "1", "7", "42", "1_000", "007"])
+        v = str(int(d.replace("_", "")))
+        r = self.rng.random()
+        if r < 0.25:
+            return "i:-" + v, [sym("-"), G, lit(d)]
+        if r < 0.35:
+            return "i:" + v, [sym("+"), G, lit(d)]
+        return "i:" + v, [lit(d)]
+
+    def tref(self):
+        ty, tl, elem = self.d.typ()
+        return ty, tl
+
+    def decl(self, k):
+        n = "Ty%d" % k
+        r = self.rng.random()
+        lx = [ident(n), sym(":")]
+        if r < 0.2:
+            rs, rl = [], []
+            for i in range(self.rng.choice([0, 1, 1, 2, 3])):
+                if i:
+                    rl.append(sym(","))
+                a, al = self.si()
+                b, bl = self.si()
+                rs.append("(%s %s)" % (a, b))
+                rl += al + [sym("..")] + bl
+            ty, tl = self.tref()
+            return "(array %s (%s) %s)" % (n.lower(), " ".join(rs), ty), lx + [kw("ARRAY"), sym("[")] + rl + [sym("]"), kw("OF")] + tl
+        if r < 0.4:
+            t = self.rng.choice(INT_TYPES_T)
+            a, al = self.si()
+            b, bl = self.si()
+            d, dl = "-", []
+            if self.rng.random() < 0.5:
+                d, x = self.si()
+                dl = [sym(":=")] + x
+            return "(subrange %s %s %s %s %s)" % (n.lower(), t.lower(), a, b, d), lx + [kw(t), sym("(")] + al + [sym("..")] + bl + [sym(")")] + dl
+        if r < 0.6:
+            vs = ["val%d" % self.rng.randrange(30) for _ in range(self.rng.choice([1, 2, 3, 4]))]
+            vl = []
+            for i, v in enumerate(vs):
+                if i:
+                    vl.append(sym(","))
+                vl.append(ident(v))
+            d, dl = "-", []
+            if self.rng.random() < 0.5:
+                d = self.rng.choice(vs + ["other"])
+                dl = [sym(":="), ident(d)]
+            return "(enum %s (%s) %s)" % (n.lower(), " ".join(vs), d), lx + [sym("(")] + vl + [sym(")")] + dl
+        if r < 0.7:
+            b = "Ty%d" % self.rng.randrange(8)
+            v = "val%d" % self.rng.randrange(30)
+            return "(enumof %s %s %s)" % (n.lower(), b.lower(), v), lx + [ident(b), sym(":="), ident(v)]
+        if r < 0.85:
+            ty, tl = self.tref()
+            c, cl = self.d.const()
+            return "(simple %s %s %s)" % (n.lower(), ty, c), lx + tl + [sym(":=")] + cl
+        b = "Ty%d" % self.rng.randrange(8)
+        return "(late %s %s)" % (n.lower(), b.lower()), lx + [ident(b)]
+
+    def block(self, k0):
+        out, lx = [], [kw("TYPE")]
+        for j in range(self.rng.choice([0, 1, 2, 3])):
+            s, l = self.decl(k0 + j)
+            out.append(s)
+            lx += l + [sym(";")]
+        if not out:
+            lx.append(sym(";"))
+        lx.append(kw("END_TYPE"))
+        return out, lx
+
+
+def lib2_elements(rng, depth=1):
+    """(element sexps, lexemes): TYPE blocks (one sexp per declaration), function blocks and programs"""
+    els, lx = [], []
+    k = 0
+    for i in range(rng.choice([1, 2, 3, 4])):
+        if rng.random() < 0.45:
+            t = T_(rng)
+            o, l = t.block(k)
+            k += len(o) + 1
+            els += o
+            lx += l
+        else:
+            us, ul = lib_units(rng, depth=depth)
+            # lib_units names its units u0..; rename by position to keep names distinct
+            els += us
+            lx += ul
+    return els, lx
+
+
+def sx_si(t):
+    return t if isinstance(t, str) else None
+
+
+def _un(x):
+    """('Name', [('Struct', {...})]) -> {...};  ('Name', {...}) -> {...}"""
+    if isinstance(x, tuple) and isinstance(x[1], list) and len(x[1]) == 1 and isinstance(x[1][0], tuple) and isinstance(x[1][0][1], dict):
+        return x[1][0][1]
+    if isinstance(x, tuple) and isinstance(x[1], dict):
+        return x[1]
+    return None
+
+
+def sx_typedecl(el):
+    """a DataTypeDeclaration element in the model's notation, or None"""
+    try:
+        kind = el[1][0]
+        name = kind[0]
+        b = _un(kind)
+        if name == "Array":
+            if b["spec"][0] != "Subranges" or b["init"]:
+                return None
+            sub = _un(b["spec"])
+            rs = ["(%s %s)" % (r[1]["start"], r[1]["end"]) for r in sub["ranges"]]
+            return "(array %s (%s) %s)" % (_tyname(b["type_name"]), " ".join(rs), _tyname(sub["type_name"]))
+        if name == "Subrange":
+            if b["spec"][0] != "Specification":
+                return None
+            sp = _un(b["spec"])
+            rng_ = sp["subrange"][1]
+            d = b["default"]
+            return "(subrange %s %s %s %s %s)" % (_tyname(b["type_name"]), str(sp["type_name"]).lower(), rng_["start"], rng_["end"], "-" if d is None else d)
+        if name == "Enumeration":
+            si = b["spec_init"][1]
+            spec = si["spec"]
+            d = si["default"]
+            dv = None
+            if d is not None:
+                if d[1].get("type_name") is not None:
+                    return None
+                dv = _name(d[1]["value"]).lower()
+            if spec[0] == "Values":
+                vs = []
+                for v in _un(spec)["values"]:
+                    if v[1].get("type_name") is not None:
+                        return None
+                    vs.append(_name(v[1]["value"]).lower())
+                return "(enum %s (%s) %s)" % (_tyname(b["type_name"]), " ".join(vs), dv or "-")
+            if spec[0] == "TypeName" and dv is not None:
+                return "(enumof %s %s %s)" % (_tyname(b["type_name"]), _tyname(spec[1][0]), dv)
+            return None
+        if name == "Simple":
+            i = b["spec_and_init"]
+            if not (isinstance(i, tuple) and i[0] == "Simple"):
+                return None
+            x = _un(i)
+            iv = x["initial_value"]
+            if iv is None:
+                return None
+            c = sx_const(iv)
+            return None if c is None else "(simple %s %s %s)" % (_tyname(b["type_name"]), _tyname(x["type_name"]), c)
+        if name == "LateBound":
+            return "(late %s %s)" % (_tyname(b["data_type_name"]), _tyname(b["base_type_name"]))
+    except (KeyError, IndexError, TypeError, AttributeError):
+        return None
+    return None
+
+
+def sx_elements_of_library(tree):
+    try:
+        out = []
+        for el in tree[1]["elements"]:
+            if el[0] == "DataTypeDeclaration":
+                s = sx_typedecl(el)
+                if s is None:
+                    return None
+                out.append(s)
+            else:
+                u = sx_units_of_library(("Library", {"elements": [el]}))
+                if u is None:
+                    return None
+                out += u
+        return out
+    except (KeyError, IndexError, TypeError):
+        return None
